@@ -10,6 +10,14 @@ from .speceval import Ev, SpecError, NilV
 MAX_INLINE_DEPTH = 6
 
 
+def mentions_ncalls(e):
+    if isinstance(e, (tuple, list)):
+        if len(e) >= 2 and e[0] == 'call' and e[1] == ('id', 'ncalls'):
+            return True
+        return any(mentions_ncalls(x) for x in e)
+    return False
+
+
 class CallsMixin:
 
     # ------------------------------------------------------------ dispatch
@@ -40,6 +48,11 @@ class CallsMixin:
             self.set_result(st, ins, [])
             return None
         self.callsite_obligations(st, fr, ins, callee, args)
+        if fr is cx.top:
+            for pat in cx.call_patterns:
+                if pat in callee:
+                    k = 'calls:' + pat
+                    st.ghost[k] = st.ghost.get(k, z3.IntVal(0)) + 1
         return self.call_static(st, fr, b, i, ins, callee, binds, args, inline_ok)
 
     def set_result(self, st, ins, vals):
@@ -159,6 +172,8 @@ class CallsMixin:
                 renv['err'] = vals[-1]
         ev2 = Ev(cx, st, renv, con.pkg, old, con.imports)
         for c in con.ensures:
+            if mentions_ncalls(c.expr):
+                continue   # about the callee's own calls: an obligation of its body, not a fact here
             if c.label.endswith('!'):
                 cx.trusted_clauses.add('%s.ensures[%s] (unproved postcondition used at a call site): %s' % (short, c.label, c.text))
             try:
